@@ -135,3 +135,41 @@ func VerifSmokeNew() {
 	verifAssert(p != nil, "packet")
 	verifReach("end")
 }
+
+// VerifC01TwoEncodes: two different packets are encoded one after the other and only then decoded:
+// each decoding yields its own packet (an encoder that hands out recycled memory would not).
+// l1, l2: length of one option value per packet (the wire forms straddle the 300- and 576-byte marks).
+func VerifC01TwoEncodes(l1, l2 int) {
+	mk := func(tag string, l int) (*DHCPv4, []byte, []byte, uint8) {
+		xid := verifBytes(tag+".xid", 4)
+		val := verifBytes(tag+".val", l)
+		code := verifU8(tag + ".code")
+		verifAssume(code >= 1)
+		verifAssume(code <= 254)
+		p := &DHCPv4{OpCode: OpcodeBootRequest, HWType: iana.HWTypeEthernet, ClientHWAddr: verifBytes(tag+".chaddr", 6), Options: Options{code: val}}
+		copy(p.TransactionID[:], xid)
+		return p, xid, val, code
+	}
+	p1, x1, v1, c1 := mk("a", l1)
+	p2, x2, v2, c2 := mk("b", l2)
+	b1 := p1.ToBytes()
+	b2 := p2.ToBytes()
+	b1again := p1.ToBytes()
+	for i, tc := range []struct {
+		b, xid, val []byte
+		code     uint8
+		hw       []byte
+	}{{b1, x1, v1, c1, p1.ClientHWAddr}, {b2, x2, v2, c2, p2.ClientHWAddr}, {b1again, x1, v1, c1, p1.ClientHWAddr}} {
+		q, err := FromBytes(tc.b)
+		verifAssert(err == nil, "decode-ok")
+		if err != nil {
+			continue
+		}
+		_ = i
+		verifAssert(verifSame(q.TransactionID[:], tc.xid), "xid")
+		verifAssert(verifSame(q.ClientHWAddr, tc.hw), "chaddr")
+		verifAssert(len(q.Options) == 1, "same-number-of-options")
+		verifAssert(verifSame(q.Options[tc.code], tc.val), "option-value")
+	}
+	verifReach("end")
+}
